@@ -390,6 +390,9 @@ func (r *Run) applyContract(st *State, fr *Frame, x *ssa.Call, callee *ssa.Funct
 					if _, ok := rec.(skipClause); ok {
 						return // clause about callee-internal program points: not usable here (sound: fewer assumptions)
 					}
+					if se, ok := rec.(specErr); ok && strings.Contains(se.msg, "unknown identifier") {
+						return // clause about the callee's local variables: not usable here either
+					}
 					panic(rec)
 				}
 			}()
